@@ -225,8 +225,17 @@ pub uninterp spec fn sub_answers<T>(s: Sub<T>, q: Request, x: RouteRef<T>) -> bo
 pub uninterp spec fn sat_below<T>(x: RouteRef<T>, q: Request) -> bool;
 impl<T> Sub<T> {
     #[verifier::external_body]
-    pub fn match_request(&self, request: &Request) -> (r: Vec<RouteRef<T>>) ensures forall|x: RouteRef<T>| #[trigger] r@.contains(x) <==> sub_answers(*self, *request, x) { unimplemented!() }
+    pub uninterp spec fn answer_len(&self, request: Request) -> nat;
+    #[verifier::external_body]
+    pub fn match_request(&self, request: &Request) -> (r: Vec<RouteRef<T>>) ensures forall|x: RouteRef<T>| #[trigger] r@.contains(x) <==> sub_answers(*self, *request, x), r@.no_duplicates(), r@.len() == self.answer_len(*request) { unimplemented!() }
 }
+// `routes.iter().any(|known| Arc::ptr_eq(known, &route))`. `r ==> contains` is sound outright (an identical handle is an equal one). The
+// converse is ASSUMED: a route handle is identified with its allocation, i.e. two handles the spec regards as equal are one allocation
+// (Verus compares Arcs by content; Route<T> is opaque here and every handle in a matcher is a clone of the one Arc made per inserted rule).
+#[verifier::external_body] pub fn outl_known<T>(routes: &Vec<RouteRef<T>>, route: &RouteRef<T>) -> (r: bool)
+    ensures r == routes@.contains(*route),
+{ /* verbatim: routes.iter().any(|known| Arc::ptr_eq(known, &route)) */ unimplemented!() }
+pub open spec fn seen_upto<T>(s: Seq<RouteRef<T>>, n: int, x: RouteRef<T>) -> bool { exists|i: int| 0 <= i < n && #[trigger] s[i] == x }
 // ASSUMED for the shim (PROVED for every layer under contract here, see lemma_*_exact): exactness of the lower layer
 #[verifier::external_body]
 pub proof fn lemma_sub_exact<T>(s: Sub<T>, q: Request)
@@ -236,6 +245,9 @@ pub proof fn lemma_sub_exact<T>(s: Sub<T>, q: Request)
 // `routes.extend(other)`: membership of the concatenation (VERIFIED wrapper around Vec::extend)
 pub fn ext_routes<T>(routes: &mut Vec<RouteRef<T>>, other: Vec<RouteRef<T>>)
     ensures forall|x: RouteRef<T>| #[trigger] final(routes)@.contains(x) <==> old(routes)@.contains(x) || other@.contains(x),
+        final(routes)@ == old(routes)@ + other@,
+        // no duplicates as long as the two parts have none and share no route
+        old(routes)@.no_duplicates() && other@.no_duplicates() && (forall|x: RouteRef<T>| !(old(routes)@.contains(x) && other@.contains(x))) ==> final(routes)@.no_duplicates(),
 {
     broadcast use axiom_iter_seq_vec;
     let ghost a = routes@; let ghost b = other@;
@@ -247,6 +259,12 @@ pub fn ext_routes<T>(routes: &mut Vec<RouteRef<T>>, other: Vec<RouteRef<T>>)
             if routes@.contains(x) { let i = choose|i: int| 0 <= i < routes@.len() && routes@[i] == x; if i < a.len() { assert(a[i] == x); } else { assert(b[i - a.len()] == x); } }
             if a.contains(x) { let i = choose|i: int| 0 <= i < a.len() && a[i] == x; assert(routes@[i] == x); }
             if b.contains(x) { let i = choose|i: int| 0 <= i < b.len() && b[i] == x; assert(routes@[a.len() + i] == x); }
+        }
+        if a.no_duplicates() && b.no_duplicates() && (forall|x: RouteRef<T>| !(a.contains(x) && b.contains(x))) {
+            assert forall|i: int, j: int| 0 <= i < routes@.len() && 0 <= j < routes@.len() && i != j implies routes@[i] != routes@[j] by {
+                if i < a.len() && j < a.len() {} else if i >= a.len() && j >= a.len() { assert(b[i - a.len()] != b[j - a.len()]); }
+                else if i < a.len() { assert(a.contains(a[i])); assert(b.contains(b[j - a.len()])); } else { assert(a.contains(a[j])); assert(b.contains(b[i - a.len()])); }
+            }
         }
     }
 }
@@ -598,9 +616,19 @@ impl<T> SchemeMatcher<T> {
 
     // C01 (scheme layer): rules for any scheme, plus the rules filed under exactly the request's scheme
     //@@ fn src/router/request_matcher/scheme.rs :: impl <T>SchemeMatcher<T> / fn match_request -> r
+    //@| requires self.wf(),
     //@| ensures forall|x: RouteRef<T>| #[trigger] r@.contains(x) <==> scheme_answers(*self, *request, x),
+    //@|     // each reported rule is reported exactly once
+    //@|     r@.no_duplicates(),
     //@| entry broadcast use group_hash_axioms; broadcast use axiom_string_key_model; broadcast use axiom_borrow_str_contains; broadcast use axiom_borrow_str_maps;
-    //@|     proof { axiom_string_ext(); }
+    //@|     proof { axiom_string_ext(); lemma_sub_exact(self.any_scheme, *request); }
+    //@| before `routes.extend(matcher.match_request(request));`: proof {
+    //@|     lemma_sub_exact(*matcher, *request);
+    //@|     let k = choose|k: String| k@ == scheme@ && self.schemes@.contains_key(k) && self.schemes@[k] == *matcher;
+    //@|     assert forall|x: RouteRef<T>| !(sub_answers(self.any_scheme, *request, x) && sub_answers(*matcher, *request, x)) by {
+    //@|         if sub_answers(self.any_scheme, *request, x) && sub_answers(*matcher, *request, x) { assert(self.any_scheme.holds(x) && self.schemes@[k].holds(x)); assert(sch_any_ok(x)); assert(sch_kf::<T>()(k, x)); assert(k@.len() > 0); }
+    //@|     }
+    //@| }
     //@| outline `routes.extend(matcher.match_request(request));` => `ext_routes(&mut routes, matcher.match_request(request));`
 
     //@@ fn src/router/request_matcher/scheme.rs :: impl <T>SchemeMatcher<T> / fn len -> r
@@ -948,6 +976,7 @@ impl<T> HostMatcher<T> {
 // SHIM: RouteIp is opaque here (unit rtr verifies its predicate); keys of the bucket map
 #[verifier::external_body] pub struct RouteIp { x: u8 }
 impl Clone for RouteIp { #[verifier::external_body] fn clone(&self) -> (r: Self) ensures r == *self { unimplemented!() } }
+impl RouteIp { #[verifier::external_body] pub fn match_ip(&self, ip: &IpAddr) -> (r: bool) ensures r == sat_ip(*self, *ip) { unimplemented!() } }
 #[verifier::external_body] pub broadcast proof fn axiom_routeip_key_model() ensures #[trigger] obeys_key_model::<RouteIp>() {}
 pub uninterp spec fn rips<T>(r: Route<T>) -> Option<Seq<RouteIp>>;
 pub open spec fn opt_ips(o: Option<&Vec<RouteIp>>) -> Option<Seq<RouteIp>> { match o { Some(v) => Some(v@), None => None } }
@@ -1113,6 +1142,10 @@ pub open spec fn ip_answers<T>(m: IpMatcher<T>, q: Request, x: RouteRef<T>) -> b
 pub open spec fn ip_sat<T>(x: RouteRef<T>, q: Request) -> bool {
     match rips(*x) { None => true, Some(v) => q.remote_addr matches Some(a) && exists|i: int| 0 <= i < v.len() && sat_ip(#[trigger] v[i], a) }
 }
+pub type IpItem<'a, T> = (&'a RouteIp, &'a Sub<T>);
+pub open spec fn ipc<T>(rem: Seq<IpItem<T>>, n: int, addr: IpAddr, request: Request, x: RouteRef<T>) -> bool {
+    exists|i: int| 0 <= i < n && sat_ip(*#[trigger] rem[i].0, addr) && sub_answers(*rem[i].1, request, x)
+}
 pub proof fn lemma_ip_exact<T>(m: IpMatcher<T>, q: Request)
     requires m.wf(),
     ensures forall|x: RouteRef<T>| #[trigger] ip_answers(m, q, x) <==> m.holds(x) && ip_sat(x, q) && sat_below(x, q),
@@ -1204,6 +1237,76 @@ impl<T> IpMatcher<T> {
     //@| closure `|_, matcher|` => `|_k: &RouteIp, matcher: &mut Sub<T>| -> (b: bool) requires old(matcher).wf() ensures batched_rel(*old(matcher), *final(matcher), ids@), !b ==> final(matcher).cnt() == 0`
     //@| entry broadcast use group_hash_axioms; broadcast use axiom_routeip_key_model;
     //@| exit proof { lemma_ip_batched(*old(self), *self, ids@); }
+
+    // C01 (ip layer): membership as in unit rtr, plus "each such rule is reported exactly once" (F7: before the repair a rule with two
+    // satisfied ranges was appended once per range bucket; the repaired code skips a handle that is already in the answer)
+    //@@ fn src/router/request_matcher/ip.rs :: impl <T>IpMatcher<T> / fn match_request -> r
+    //@| opt r5:0
+    //@| opt r6:0
+    //@| opt r5:1
+    //@| opt optloop:1
+    //@| requires self.wf(),
+    //@| ensures forall|x: RouteRef<T>| #[trigger] r@.contains(x) <==> ip_answers(*self, *request, x),
+    //@|     // each reported rule is reported exactly once
+    //@|     r@.no_duplicates(),
+    //@| attr #[verifier::loop_isolation(false)]
+    //@| entry broadcast use group_hash_axioms; broadcast use axiom_routeip_key_model; broadcast use axiom_iter_seq_vec;
+    //@|     proof { lemma_sub_exact(self.no_matcher, *request); }
+    //@| loopbefore 0: let ghost any0 = routes@; let ghost gm = self.matchers@; let ghost addr = *remote_addr;
+    //@| loop 0: invariant 0 <= vf_it0_idx <= vf_it0_rem0.len(), vf_it0.remaining() == vf_it0_rem0.skip(vf_it0_idx), vf_it0_rem0.len() == gm.len(),
+    //@|         forall|x: RouteRef<T>| #[trigger] routes@.contains(x) <==> (any0.contains(x) || ipc(vf_it0_rem0, vf_it0_idx, addr, *request, x)),
+    //@|         routes@.no_duplicates(),
+    //@|     decreases gm.len() - vf_it0_idx,
+    //@| loophead 0: let ghost r0 = routes@; let ghost k = vf_it0_idx - 1; let ghost rem = vf_it0_rem0;
+    //@|     proof { assert(ip_cidr == rem[k].0 && matcher == rem[k].1); }
+    //@| loop 1: invariant 0 <= vf_it1_idx <= vf_it1_rem0.len(), vf_it1.remaining() == vf_it1_rem0.skip(vf_it1_idx), vf_it1_rem0.len() == matcher.answer_len(*request),
+    //@|         forall|x: RouteRef<T>| #[trigger] vf_it1_rem0.contains(x) <==> sub_answers(*matcher, *request, x),
+    //@|         forall|x: RouteRef<T>| #[trigger] routes@.contains(x) <==> (r0.contains(x) || seen_upto(vf_it1_rem0, vf_it1_idx, x)),
+    //@|         routes@.no_duplicates(),
+    //@|     decreases matcher.answer_len(*request) - vf_it1_idx,
+    //@| loophead 1: let ghost r1 = routes@; let ghost j = vf_it1_idx - 1; let ghost ans = vf_it1_rem0;
+    //@|     proof { assert(route == ans[j]); }
+    //@| looptail 1: proof {
+    //@|     if routes@ != r1 {
+    //@|         assert(routes@ =~= r1.push(route)); assert(!r1.contains(route));
+    //@|         assert forall|a: int, b: int| 0 <= a < routes@.len() && 0 <= b < routes@.len() && a != b implies routes@[a] != routes@[b] by {
+    //@|             if a < r1.len() && b < r1.len() { assert(r1[a] != r1[b]); }
+    //@|             else if a < r1.len() { assert(r1.contains(r1[a])); }
+    //@|             else if b < r1.len() { assert(r1.contains(r1[b])); }
+    //@|         }
+    //@|     }
+    //@|     assert forall|x: RouteRef<T>| #[trigger] routes@.contains(x) <==> (r0.contains(x) || seen_upto(ans, j + 1, x)) by {
+    //@|         if routes@ != r1 { assert(routes@[r1.len() as int] == route); if r1.contains(x) { let i = choose|i: int| 0 <= i < r1.len() && r1[i] == x; assert(routes@[i] == x); } }
+    //@|         if seen_upto(ans, j + 1, x) { let i = choose|i: int| 0 <= i < j + 1 && ans[i] == x; if i < j { assert(seen_upto(ans, j, x)); } }
+    //@|         if seen_upto(ans, j, x) { let i = choose|i: int| 0 <= i < j && ans[i] == x; assert(0 <= i < j + 1 && ans[i] == x); }
+    //@|         if x == route { assert(0 <= j < j + 1 && ans[j] == x); }
+    //@|     }
+    //@| }
+    //@| loopend 1: proof {
+    //@|     let ans = vf_it1_rem0;
+    //@|     assert forall|x: RouteRef<T>| seen_upto(ans, ans.len() as int, x) <==> sub_answers(*matcher, *request, x) by {
+    //@|         if seen_upto(ans, ans.len() as int, x) { let i = choose|i: int| 0 <= i < ans.len() && ans[i] == x; assert(ans.contains(x)); }
+    //@|         if ans.contains(x) { let i = choose|i: int| 0 <= i < ans.len() && ans[i] == x; assert(seen_upto(ans, ans.len() as int, x)); }
+    //@|     }
+    //@|     assert(forall|x: RouteRef<T>| #[trigger] routes@.contains(x) <==> (r0.contains(x) || sub_answers(*matcher, *request, x)));
+    //@| }
+    //@| looptail 0: proof {
+    //@|     assert forall|x: RouteRef<T>| #[trigger] routes@.contains(x) <==> (any0.contains(x) || ipc(rem, k + 1, addr, *request, x)) by {
+    //@|         assert(routes@.contains(x) <==> (r0.contains(x) || (sat_ip(*ip_cidr, addr) && sub_answers(*matcher, *request, x))));
+    //@|         if ipc(rem, k + 1, addr, *request, x) { let i = choose|i: int| 0 <= i < k + 1 && sat_ip(*#[trigger] rem[i].0, addr) && sub_answers(*rem[i].1, *request, x); if i < k { assert(ipc(rem, k, addr, *request, x)); } }
+    //@|         if ipc(rem, k, addr, *request, x) { let i = choose|i: int| 0 <= i < k && sat_ip(*#[trigger] rem[i].0, addr) && sub_answers(*rem[i].1, *request, x); assert(sat_ip(*rem[i].0, addr)); }
+    //@|         if sat_ip(*ip_cidr, addr) && sub_answers(*matcher, *request, x) { assert(sat_ip(*rem[k].0, addr)); }
+    //@|     }
+    //@| }
+    //@| loopend 0: proof {
+    //@|     let rem = vf_it0_rem0;
+    //@|     assert forall|x: RouteRef<T>| ipc(rem, rem.len() as int, addr, *request, x) <==> (exists|ip: RouteIp| gm.contains_key(ip) && sat_ip(ip, addr) && #[trigger] sub_answers(gm[ip], *request, x)) by {
+    //@|         if ipc(rem, rem.len() as int, addr, *request, x) { let i = choose|i: int| 0 <= i < rem.len() && sat_ip(*#[trigger] rem[i].0, addr) && sub_answers(*rem[i].1, *request, x); let ip = *rem[i].0; assert(gm.contains_key(ip) && gm[ip] == *rem[i].1); assert(sub_answers(gm[ip], *request, x)); }
+    //@|         if exists|ip: RouteIp| gm.contains_key(ip) && sat_ip(ip, addr) && #[trigger] sub_answers(gm[ip], *request, x) { let ip = choose|ip: RouteIp| gm.contains_key(ip) && sat_ip(ip, addr) && #[trigger] sub_answers(gm[ip], *request, x); let i = choose|i: int| 0 <= i < rem.len() && *rem[i].0 == ip; assert(gm[*rem[i].0] == *rem[i].1); assert(sat_ip(*rem[i].0, addr)); }
+    //@|     }
+    //@| }
+    //@| outline `routes.iter().any(|known| Arc::ptr_eq(known, &route))` => `outl_known(&routes, &route)`
+    //@| outline `routes.extend(matcher.match_request(request));` => `ext_routes(&mut routes, matcher.match_request(request));`
 
     //@@ fn src/router/request_matcher/ip.rs :: impl <T>IpMatcher<T> / fn len -> r
     //@| ensures r == self.cnt(),
